@@ -343,6 +343,40 @@ where
     }
     let Out::Ok(p) = direct else { return (seen, None) };
     seen.accepted = true;
+    // deserialising *into* an existing value (serde's `deserialize_in_place`, what containers
+    // use to recycle allocations) gives the same PURL, whatever the place held before: a value
+    // with the same keys and other values plus one more key, and the value itself
+    {
+        let mut b = p.clone().into_builder();
+        for (k, v) in b.parts.qualifiers.iter_mut() {
+            if k.as_str() != "checksum" {
+                v.push_str("-stale");
+            }
+        }
+        let _ = b.parts.qualifiers.insert("zzz-stale", "1");
+        b.parts.version = "stale".into();
+        b.parts.subpath = "stale".into();
+        let mut places = vec![p.clone()];
+        if let Out::Ok(old) = obs::build(b) {
+            places.push(old);
+        }
+        for mut place in places {
+            let before = Snap::of(&place);
+            let r = guard("Deserialize::deserialize_in_place", || {
+                let mut de = serde_json::Deserializer::from_str(&plain);
+                serde::Deserialize::deserialize_in_place(&mut de, &mut place).map(|()| place)
+            });
+            match r {
+                Out::Ok(Ok(q)) if q == p => {},
+                Out::Ok(Ok(q)) => {
+                    return (seen, Some(Fail::tagged("deserialised-in-place-differs", "", format!("{s:?} deserialised into a place holding {before:?} gives {:?}; from_str gives {:?}", Snap::of(&q), Snap::of(&p)))))
+                },
+                Out::Ok(Err(e)) => return (seen, Some(Fail::tagged("deserialise-refuses-valid", "in place", format!("{s:?} parses, but deserialising it in place fails: {e}")))),
+                Out::Panic(m) => return (seen, Some(Fail::tagged("panicked", m.clone(), format!("deserialising {s:?} in place: {m}")))),
+                Out::Err(_) => unreachable!(),
+            }
+        }
+    }
     // Serialize: exactly the canonical string, as one string value
     let c = match obs::show(&p) {
         Out::Ok(c) => c,
